@@ -11,7 +11,7 @@ RULE = ('cases = 1-5 back-to-back transactions between a client MemoryAccess/Dm1
         'model on another (proceed records its arguments; notify schedules, 1-20 ms later, an application task that answers a read with fresh random '
         'bytes for exactly that request or accepts a write and keeps what respond() returns); object count x size = 1..255 bytes (every length '
         '1..255 in the sweeps; single-frame DM16 up to 7 bytes, RTS/CTS above), sizes 1/2/4/8, signed/unsigned, raw/converted, pointer over '
-        '0..2^32-1 incl. boundaries, direct/spatial, seed/key off/on with random seeds, same and different pointers in consecutive transactions, read '
+        '0..2^32-1 incl. boundaries, direct/spatial, seed/key off/on with random seeds, same and different pointers in consecutive transactions, in 30 % of the cases two requesters on different stacks taking turns on the same server, read '
         'after write and write after read, windows 1..255, latencies (0,5 ms]; oracle = returned bytes/integers equal what the server application '
         'supplied, respond() on the server returns exactly the written bytes, proceed saw (command, address, pointer type, count) of the request, all '
         'four state attributes IDLE afterwards; non-trivial = >= 1 transaction judged; distinct = (kinds, sizes class, seed/key, raw)')
@@ -60,7 +60,12 @@ def run_case(case):
     windows = (rng.choice([1, 2, 5, 255]), rng.choice([1, 3, 255]))
     # addresses: the usual ones, or boundary values (0 is falsy, 253 the last claimable one)
     ca_, sa_ = rng.choice([(D.CLI, D.SRV), (D.CLI, D.SRV), (0x00, D.SRV), (D.CLI, 0x00), (253, 1), (rng.randrange(2, 120), rng.randrange(128, 253))])
-    DW = D.Dm14World(case['seed'], seedkey=seedkey, windows=windows, latency=rng.choice([(0.0001, 0.005), (0.0001, 0.0005)]), cli_addr=ca_, srv_addr=sa_)
+    two = case['kind'] != 'sweep' and rng.random() < 0.3
+    c2 = None
+    if two:
+        c2 = rng.choice([a for a in (0xE5, 0x00, 0x33, 252) if a not in (ca_, sa_)])
+    DW = D.Dm14World(case['seed'], seedkey=seedkey, windows=windows, latency=rng.choice([(0.0001, 0.005), (0.0001, 0.0005)]), cli_addr=ca_, srv_addr=sa_,
+                     second_client=c2)
     viol = M.Violations()
     tag = dict(layer='dm14')
     if case['kind'] == 'sweep':
@@ -76,6 +81,8 @@ def run_case(case):
     via = rng.choice(['facade', 'facade', 'query'])
     for op in ops:
         op['via'] = via
+        if two:
+            op['client'] = rng.randrange(2)          # the two requesters take turns in random order
     results = DW.run_ops(ops, gap=rng.choice([0.002, 0.02, 0.2]), timeout=2)
     obs = dict(transactions=0, reads_checked=0, writes_checked=0, multipacket=0, with_seedkey=0, converted_reads=0, leftover_queue_items=0,
                lengths_covered_max=0)
@@ -107,7 +114,7 @@ def run_case(case):
             viol.add('proceed_count', '%s: proceed callback ran %d times' % (what, len(pcs)), **wtag)
         else:
             p = pcs[0]
-            want = dict(command=C.DM14_READ if op['kind'] == 'read' else C.DM14_WRITE, address=op['pointer'], pointer_type=op['direct'], object_count=op['count'], sa=DW.cli_addr)
+            want = dict(command=C.DM14_READ if op['kind'] == 'read' else C.DM14_WRITE, address=op['pointer'], pointer_type=op['direct'], object_count=op['count'], sa=DW.client_addrs[op.get('client', 0)])
             got = {a: p[a] for a in want}
             if got != want:
                 bad = [a for a in want if got[a] != want[a]]
